@@ -232,8 +232,9 @@ var c11freeText = map[string]bool{"name": true, "alias": true, "text": true, "de
 // value; limit > 0 takes a seed-determined sample of that many.
 func c11generic(doc *jmut.Node, pick func(n int) int, limit int, under string) []*jmut.Node {
 	type cand struct {
-		p jmut.Path
-		v string
+		p   jmut.Path
+		v   string
+		tag string // non-empty: always tried, once per (member name, tag) of the document
 	}
 	var cands []cand
 	doc.Walk(func(p jmut.Path, n *jmut.Node) {
@@ -255,7 +256,11 @@ func c11generic(doc *jmut.Node, pick func(n int) int, limit int, under string) [
 		}
 		for _, v := range vals {
 			if v != n.S {
-				cands = append(cands, cand{p, v})
+				tag := ""
+				if c11overLimit[v] {
+					tag = "over-limit:" + v[:1]
+				}
+				cands = append(cands, cand{p, v, tag})
 			}
 		}
 		// near misses of the value itself: extended keys, other case, appended characters
@@ -267,9 +272,15 @@ func c11generic(doc *jmut.Node, pick func(n int) int, limit int, under string) [
 			} else if len(n.S) > 3 {
 				near = append(near, n.S[:2]+"\t"+n.S[2:], n.S[:2]+" "+n.S[2:], n.S[:2]+"."+n.S[2:])
 			}
-			for _, v := range near {
+			for ni, v := range near {
 				if v != n.S && v != "" {
-					cands = append(cands, cand{p, v})
+					tag := ""
+					if ni < 3 {
+						tag = fmt.Sprintf("extended-key-%d", ni) // value+x, value+x+y, value+sepa+instant
+					} else if ni == 6 || ni == 7 {
+						tag = fmt.Sprintf("other-case-%d", ni) // the value in capitals / in small letters
+					}
+					cands = append(cands, cand{p, v, tag})
 				}
 			}
 		}
@@ -280,12 +291,13 @@ func c11generic(doc *jmut.Node, pick func(n int) int, limit int, under string) [
 		var keep, rest []cand
 		seenName := map[string]bool{}
 		for _, cd := range cands {
-			name := cd.p[len(cd.p)-1].Key + "|" + cd.v
+			name := cd.p[len(cd.p)-1].Key + "|" + cd.tag
 			if len(cd.p) > 1 && cd.p[len(cd.p)-2].Key == "ext" {
 				keep = append(keep, cd)
-			} else if c11overLimit[cd.v] && !seenName[name] {
-				// one character more than a published length limit: always tried once
-				// per member name of the document
+			} else if cd.tag != "" && !seenName[name] {
+				// one character more than a published length limit, and the value extended
+				// by further '+' parts: always tried once per member name of the document
+				// (whether these were met used to depend on the sample, §10.10)
 				seenName[name] = true
 				keep = append(keep, cd)
 			} else {
